@@ -215,7 +215,11 @@ def r2(R2, cfg, F):
                 if root[0] == 'agg' and depth < 3:
                     a = b.blocks[root[1]]['stmts'][root[2]]['rv']
                     if a.get('adt') == 'std::option::Option':
-                        return a.get('variant_name') == 'None' or all(fine(r, depth + 1) for r in b.origins(a['ops'][0]))
+                        if a.get('variant_name') == 'None':
+                            # no guard: only for an entry that has no lock at all (`self.dynamic` is None on this path)
+                            return any(g[3][0] == 'discr' and common.strip_refs(common.deep_path(b, g[3][1])) == ['arg1', 'dynamic'] and common.guard_variant(b, g) == 0
+                                       for g in common.guards_of(b, root[1]))
+                        return all(fine(r, depth + 1) for r in b.origins(a['ops'][0]))
                 return False
             roots = b.origins(gop)
             ok = bool(roots) and all(fine(r) for r in roots)
